@@ -221,6 +221,7 @@ def judge_c04(rec, snap, by, stackings):
     for c in cands:
         cmap[(c["i"], c["j"])] = c
     reported = {}
+    _prev_key = [None]
     for s in stackings:
         i, j = _resolve(by, s.nt1), _resolve(by, s.nt2)
         topo = lwval(s.topology)
@@ -232,6 +233,11 @@ def judge_c04(rec, snap, by, stackings):
         rec.check("stackings.once", key not in reported, det)
         reported[key] = topo
         rec.check("stackings.lower-first", _order3(snap[i]) < _order3(snap[j]), det)
+        # "ordered by chain and number": the list itself runs in that order as well
+        cur_key = (_order3(snap[i]), _order3(snap[j]))
+        if _prev_key[0] is not None:
+            rec.check("stackings.list-in-chain-number-order", _prev_key[0] <= cur_key, lambda: det({"previous": _prev_key[0], "current": cur_key}))
+        _prev_key[0] = cur_key
         c = cmap.get(key)
         if c is None or not c["normals"] or "dot" not in c:
             rec.violation("stackings.sound", det({"reason": "no candidate within 6.01 A / normals undefined", "cand": c}), mechanism=None)
